@@ -22,9 +22,25 @@ _TMP = None
 _FILES: dict = {}
 
 
+def _sweep_stale(prefix, older_than_s=6 * 3600):
+    """Scratch directories of runs that were killed (a native crash under a seeded change, a timeout) are not removed by
+    their atexit handler: remove those that have not been touched for hours."""
+    import time
+
+    root = tempfile.gettempdir()
+    try:
+        for name in os.listdir(root):
+            p = os.path.join(root, name)
+            if name.startswith(prefix) and os.path.isdir(p) and time.time() - os.path.getmtime(p) > older_than_s:
+                shutil.rmtree(p, True)
+    except OSError:
+        pass
+
+
 def tmp():
     global _TMP
     if _TMP is None:
+        _sweep_stale("rv-audio-")
         _TMP = tempfile.mkdtemp(prefix="rv-audio-")
         import atexit
 
